@@ -132,6 +132,142 @@ func OverlapStress(r *gen.Rng, n int) []VCase {
 	return out
 }
 
+// DupStress: documents in which one rule has several things to report at once — several distinct
+// names each defined twice or more, several unknown names, several unused or undefined things —
+// in varying order. The order and number of the errors is part of the result.
+func DupStress(r *gen.Rng, n int) []VCase {
+	schema := []string{"type Query { f(x: Int, y: Int, z: Int, in: In): Int g: Query h(e: E): Int } input In { a: Int b: Int c: Int n: In } enum E { A B } directive @d(a: Int) repeatable on FIELD directive @once on FIELD | QUERY"}
+	names := []string{"a", "b", "c", "dd", "e1"}
+	perm := func(k int) []string {
+		var out []string
+		for i := 0; i < k; i++ {
+			out = append(out, gen.Pick(r, names))
+		}
+		return out
+	}
+	var out []VCase
+	for i := 0; i < n; i++ {
+		var q string
+		switch i % 9 {
+		case 0: // variables
+			var defs, uses []string
+			for _, v := range perm(2 + r.Intn(5)) {
+				defs = append(defs, "$"+v+": Int")
+				uses = append(uses, "$"+v)
+			}
+			q = "query Q(" + strings.Join(defs, ", ") + ") { f(x: " + gen.Pick(r, uses) + ") u: f(y: $" + gen.Pick(r, names) + ") }"
+		case 1: // arguments
+			var as []string
+			for _, a := range perm(2 + r.Intn(5)) {
+				as = append(as, map[string]string{"a": "x", "b": "y", "c": "z", "dd": "x", "e1": "nope"}[a]+": 1")
+			}
+			q = "{ f(" + strings.Join(as, ", ") + ") @d(" + strings.Join(as, ", ") + ") }"
+		case 2: // input fields, nested
+			var fs []string
+			for _, a := range perm(2 + r.Intn(5)) {
+				fs = append(fs, a+": 1")
+			}
+			q = "{ f(in: {" + strings.Join(fs, ", ") + ", n: {" + strings.Join(fs, ", ") + "}}) }"
+		case 3: // operation names
+			var ops []string
+			for _, a := range perm(2 + r.Intn(4)) {
+				ops = append(ops, gen.Pick(r, []string{"query ", "query ", "mutation ", "subscription "})+a+" { g { f } }")
+			}
+			q = strings.Join(ops, " ")
+		case 4: // fragment names, used and unused
+			var fr, sp []string
+			for _, a := range perm(2 + r.Intn(4)) {
+				fr = append(fr, "fragment "+a+" on Query { f }")
+				if r.Bool() {
+					sp = append(sp, "..."+a)
+				}
+			}
+			q = "{ g { f " + strings.Join(sp, " ") + " ..." + gen.Pick(r, names) + " } } " + strings.Join(fr, " ")
+		case 5: // directives per location
+			var ds []string
+			for _, a := range perm(2 + r.Intn(5)) {
+				ds = append(ds, map[string]string{"a": "@once", "b": "@skip(if: false)", "c": "@include(if: true)", "dd": "@d", "e1": "@nope"}[a])
+			}
+			q = "query Q " + strings.Join(ds, " ") + " { f " + strings.Join(ds, " ") + " }"
+		case 6: // unknown types and fields with several candidates
+			var vs []string
+			for j, a := range perm(2 + r.Intn(3)) {
+				vs = append(vs, "$v"+itoa(j)+": "+strings.ToUpper(a)+"x")
+			}
+			q = "query Q(" + strings.Join(vs, ", ") + ") { " + gen.Pick(r, names) + " " + gen.Pick(r, names) + "x ff gg h(e: " + strings.ToUpper(gen.Pick(r, names)) + ") ... on " + strings.ToUpper(gen.Pick(r, names)) + " { f } }"
+		case 7: // unused and undefined variables over fragments
+			var defs []string
+			for _, v := range perm(2 + r.Intn(4)) {
+				defs = append(defs, "$"+v+": Int")
+			}
+			q = "query Q(" + strings.Join(defs, ", ") + ") { ...F f(x: $" + gen.Pick(r, names) + ") } query R { ...F } fragment F on Query { f(y: $" + gen.Pick(r, names) + ", z: $" + gen.Pick(r, names) + ") }"
+		default: // fragment cycles through several fragments
+			k := 2 + r.Intn(3)
+			var fr []string
+			for j := 0; j < k; j++ {
+				fr = append(fr, "fragment C"+itoa(j)+" on Query { f ...C"+itoa(r.Intn(k))+" ...C"+itoa(r.Intn(k))+" }")
+			}
+			q = "{ ...C0 ...C" + itoa(r.Intn(k)) + " } " + strings.Join(fr, " ")
+		}
+		out = append(out, VCase{Srcs: schema, Query: q})
+	}
+	return out
+}
+
+// TypeMatrix: a small complete cross product for the two rules that compare a value or a variable
+// with the type of its position: every literal shape against every argument type, and every
+// variable type (without default, with a null default, with a value default) used at every
+// argument type (with and without a default of the argument), directly and inside a list or an
+// input object.
+func TypeMatrix() []VCase {
+	types := []string{"Int", "Int!", "[Int]", "[Int!]", "[Int]!", "[Int!]!", "[[Int]]", "[[Int!]!]!", "[[Int]!]", "String", "String!", "Boolean!",
+		"Float!", "ID!", "E", "E!", "[E!]", "Custom", "Custom!", "[Custom!]!", "In", "In!", "[In!]"}
+	okLit := map[string]string{"Int": "1", "String": "\"s\"", "Boolean": "true", "Float": "1.5", "ID": "\"i\"", "E": "A", "Custom": "1", "In": "{r: 1, c: 1}"}
+	lit := func(t string) string {
+		base := strings.Trim(t, "[]!")
+		depth := strings.Count(t, "[")
+		return strings.Repeat("[", depth) + okLit[base] + strings.Repeat("]", depth)
+	}
+	lits := []string{"null", "1", "-0", "2147483648", "1.5", "\"s\"", "true", "A", "C", "[]", "[null]", "[1]", "[1, null]", "[[1]]", "[[null]]", "[[1], null]",
+		"[\"x\"]", "[[\"x\"]]", "{}", "{r: 1, c: 1}", "{r: null, c: 1}", "{r: 1, c: null}", "{r: 1, c: 1, d: null}", "{r: 1, c: 1, o: null, l: [1, null]}",
+		"{r: 1, c: 1, n: {r: 2}}", "{r: 1, c: 1, m: [{r: 1, c: 2}, null]}", "{r: 1, c: 1, zz: 1}", "[{r: 1, c: 1}]", "[A, null]", "[null, [1]]"}
+	var sb strings.Builder
+	sb.WriteString("scalar Custom\nenum E { A B }\ninput In { r: Int! o: Int l: [Int!] c: Custom! d: Int! = 1 n: In m: [In!] }\ntype Query {\n")
+	for k, t := range types {
+		sb.WriteString("  f" + itoa(k) + "(a: " + t + "): Int\n  g" + itoa(k) + "(a: " + t + " = " + lit(t) + "): Int\n")
+	}
+	sb.WriteString("}\ndirective @dv(a: [Int!]!, c: Custom!) on FIELD\n")
+	schema := []string{sb.String()}
+	var out []VCase
+	add := func(q string) { out = append(out, VCase{Srcs: schema, Query: q}) }
+	for k := range types {
+		for _, l := range lits {
+			add("{ f" + itoa(k) + "(a: " + l + ") }")
+		}
+	}
+	for _, l := range lits {
+		add("{ f0 @dv(a: " + l + ", c: 1) }")
+		add("{ f0 @dv(a: [1], c: " + l + ") }")
+		add("query Q($v: [Int!]! = " + l + ", $c: Custom! = " + l + ") { f5(a: $v) f18(a: $c) }")
+	}
+	for _, v := range types {
+		for _, d := range []string{"", " = null", " = " + lit(v)} {
+			for k, p := range types {
+				add("query Q($v: " + v + d + ") { f" + itoa(k) + "(a: $v) }")
+				add("query Q($v: " + v + d + ") { g" + itoa(k) + "(a: $v) }")
+				if strings.HasPrefix(p, "[") {
+					add("query Q($v: " + v + d + ") { f" + itoa(k) + "(a: [$v]) }")
+				}
+			}
+			add("query Q($v: " + v + d + ") { f21(a: {r: $v, c: $v}) }")
+			add("query Q($v: " + v + d + ") { f21(a: {r: 1, c: 1, l: $v, d: $v, m: $v}) }")
+			add("query Q($v: " + v + d + ") { f0 @dv(a: $v, c: $v) }")
+			add("query Q($v: " + v + d + ") { ...F } fragment F on Query { f5(a: $v) f2(a: [$v]) }")
+		}
+	}
+	return out
+}
+
 func valArgs(rules string, k VCase) [][]byte {
 	args := [][]byte{[]byte(rules), []byte(k.Query)}
 	for _, s := range k.Srcs {
@@ -155,6 +291,15 @@ func runC08(c *core.Ctx) {
 	}
 	cases = append(cases, OverlapStress(c.Rng, nStress)...)
 	c.Count("overlap_stress_documents", int64(nStress))
+	nDup := 4000
+	if !c.Quick {
+		nDup = 40000
+	}
+	cases = append(cases, DupStress(c.Rng, nDup)...)
+	c.Count("several_errors_of_one_rule_documents", int64(nDup))
+	tm := TypeMatrix()
+	cases = append(cases, tm...)
+	c.Count("type_matrix_documents", int64(len(tm)))
 	for k, v := range feats {
 		c.Count("feature_"+k, int64(v))
 	}
